@@ -714,6 +714,21 @@ def run(ctx):
                   "returns RecordDescriptor._unpack(*data)", key="R6.5:json-unpack_obj:descriptor-branch:unvalidated-return")
     ctx.floor("R6.5", "returns of the JSON decoder's descriptor branch", n_j6, 1)
 
+    # ------------------------------------------------------------------ R6.8 the string-definition path is taken only without a field list
+    ctx.rule("R6.8", "RecordDescriptor.__init__ parses `name` as a complete textual definition (parse_def) only when `fields is None`: an empty field list is still a "
+                     "field list, and a name that then goes through parse_def is split at its first line instead of being validated as a type name")
+    rdi8 = ctx.anchor_func("flow.record.base.RecordDescriptor.__init__")
+    cfg8 = CFG(rdi8)
+    pdefs = [c for c in calls_in(rdi8) if call_name(c) == "parse_def"]
+    ctx.floor("R6.8", "parse_def calls in RecordDescriptor.__init__", len(pdefs), 1)
+    fparam8 = func_params(rdi8)[2] if len(func_params(rdi8)) > 2 else "fields"
+    for c8 in pdefs:
+        prem8 = logic.facts_as_premises(cfg8.facts_at((cfg8.header_node_for_expr(c8) or cfg8.node_of(c8)).id))
+        ctx.check(logic.implies(prem8, logic.parse(f"{fparam8} is None")), "R6.8", "RecordDescriptor.__init__:parse_def-only-without-fields",
+                  f"parse_def({norm(c8.args[0]) if c8.args else ''}) can run although a field list was given (the facts there do not imply `{fparam8} is None`)", c8,
+                  f"under `{fparam8} is None`", key="R6.8:RecordDescriptor.__init__:parse_def-with-field-list")
+
+
 
 def _target_names(t):
     if isinstance(t, ast.Name):
